@@ -448,7 +448,54 @@ def clause_c(repo, chk):
         chk.violation("C-accum", integ.key, "order", "integral() must call init_res_table() before append_int()", file=FF, line=integ.lineno)
 
 
+def clause_zip(repo, chk):
+    """the cached-amplitude model pairs, chain by chain, the parameter vectors with the cached angular parts: both lists
+    must be in the order of the chain selection (round-4 seed)"""
+    from ..sym import SelfObj, Translator, Unmodelled
+    AMPF = "tf_pwa/amp/amp.py"
+    chk.rule("B-zip", "CachedAmpAmplitudeModel.pdf, interpreted up to its chain loop with the selection chains_idx = [2, 0] (and [0, 1, 2], [1]): the list zipped with build_params_vector's result (which follows chains_idx) holds the cached parts of the same chains in the same order")
+    cls = repo.cls(AMPF + "::CachedAmpAmplitudeModel")
+    fn = cls.methods.get("pdf")
+    if fn is None:
+        raise AnalysisError("anchor vanished: CachedAmpAmplitudeModel.pdf")
+    loops = [st for st in fn.node.body if isinstance(st, ast.For) and any(isinstance(c, ast.Call) and isinstance(c.func, ast.Name) and c.func.id == "zip" for c in ast.walk(st.iter))]
+    if len(loops) != 1:
+        raise AnalysisError("CachedAmpAmplitudeModel.pdf: expected one loop over zip(parameter vectors, cached parts), found %d" % len(loops))
+    lp = loops[0]
+    zc = [c for c in ast.walk(lp.iter) if isinstance(c, ast.Call) and isinstance(c.func, ast.Name) and c.func.id == "zip"][0]
+    bad = None
+    for sel in ([2, 0], [0, 1, 2], [1]):
+        idx = [sp.Integer(i) for i in sel]
+        dg = SelfObj(None, {"chains_idx": list(idx)})
+        so = SelfObj(cls, {"decay_group": dg})
+        hooks = {"numeric_call_first": lambda tr_, d, a, k, n: ([("pv", int(i)) for i in idx] if d.split(".")[-1] == "build_params_vector" else (sp.Integer(9) if d.split(".")[-1] == "data_shape" else NotImplemented))}
+        for g in repo.func_by_name.get("build_params_vector", []):
+            hooks[g.key] = lambda tr_, a_, k_, n_: [("pv", int(i)) for i in idx]
+        for g in repo.func_by_name.get("data_shape", []):
+            hooks[g.key] = lambda tr_, a_, k_, n_: sp.Integer(9)
+        tr = Translator(repo, hooks=hooks, max_depth=2)
+        env = {"self": so, "data": {"cached_amp": [("cached", k) for k in range(3)]}}
+        try:
+            for st in fn.node.body:
+                if st is lp:
+                    break
+                tr.exec_stmt(st, env, fn.mod, 0)
+            lists = [tr.eval(a_, env, fn.mod, 0) for a_ in zc.args]
+        except Unmodelled as e:
+            raise AnalysisError("CachedAmpAmplitudeModel.pdf cannot be interpreted up to its chain loop: %s" % e)
+        pv = [l for l in lists if isinstance(l, list) and l and isinstance(l[0], tuple) and l[0][0] == "pv"]
+        cd = [l for l in lists if isinstance(l, list) and l and isinstance(l[0], tuple) and l[0][0] == "cached"]
+        if len(pv) != 1 or len(cd) != 1:
+            raise AnalysisError("CachedAmpAmplitudeModel.pdf: the zipped lists are not (parameter vectors, cached parts): %r" % (lists,))
+        if [k for _, k in pv[0]] != [k for _, k in cd[0]] and bad is None:
+            bad = "with chains_idx = %s the parameter vectors of the chains %s are paired with the cached angular parts of the chains %s" % (sel, [k for _, k in pv[0]], [k for _, k in cd[0]])
+    chk.oblige("B-zip", "CachedAmpAmplitudeModel.pdf pairs parameters and cached parts of the same chain for 3 selections", bad is None)
+    if bad:
+        chk.violation("B-zip", fn.key, "pairing", bad + ": couplings of one chain multiply the angular part of another (partial sums and fit fractions by chain index are wrong)", file=AMPF, line=lp.lineno)
+
+
 def run(repo, chk, tier):
+    clause_zip(repo, chk)
     from ..cacheown import check_persistent_state
 
     check_persistent_state(repo, chk, ["tf_pwa/fitfractions.py", "tf_pwa/amp/amp.py"])
